@@ -267,6 +267,10 @@ class BridgeHarness:
         okc = e_has is not None and e_last is not None
         self.rec(ctx, uid + "/state/keeps-whether-an-element-came-apart-from-the-last-element", okc,
                  detail="the cells has_value / last_value are not both there: an element cannot be told from `no element yet` by its value (None is an element)")
+        if okc:
+            from .cells import require_known
+            for h in hs:
+                require_known(h, {"has_value", "last_value"}, uid)
         if not okc:
             return
         has0, last0 = ctx.fresh("has", "bool"), ctx.fresh("last", "val")
@@ -416,6 +420,9 @@ class BridgeHarness:
         if not all(v is not None for v in envs.values()) or not all(isinstance(h, Closure) for h in hs):
             self.rec(ctx, uid + "/handlers/three-closures-over-result-has_result-exception-done", False)
             return
+        from .cells import require_known
+        for h in hs:
+            require_known(h, set(names), uid)
         envs["done"].vars["done"] = False
         has0, res0 = ctx.fresh("has_result", "bool"), ctx.fresh("result", "val")
         envs["has_result"].vars["has_result"], envs["result"].vars["result"] = has0, res0
